@@ -17,6 +17,7 @@
 #include <atomic>
 #include <condition_variable>
 #include <cstdint>
+#include <deque>
 #include <iostream>
 #include <memory>
 #include <mutex>
@@ -196,7 +197,9 @@ namespace bloch::runtime {
         std::vector<Value> staticStorage;
         std::unordered_map<std::string, size_t> instanceFieldIndex;
         std::unordered_map<std::string, size_t> staticFieldIndex;
-        std::unordered_map<std::string, std::vector<RuntimeMethod>> methods;
+        // Buckets are deques: the vtable keeps RuntimeMethod* into them, and a deque - unlike a
+        // vector - never moves its elements when another overload is appended.
+        std::unordered_map<std::string, std::deque<RuntimeMethod>> methods;
         std::unordered_map<std::string, RuntimeMethod*> vtable;
         std::vector<RuntimeConstructor> constructors;
         std::vector<RuntimeTypeInfo> typeArgs;
